@@ -155,7 +155,13 @@ def announce(root: str, how: Optional[str]) -> Optional[str]:
 def prebuilt_markers(root: str) -> set:
     """The in-flight markers under metadata/inflight that do not belong to files the library wrote itself."""
     d = os.path.join(root, "metadata", "inflight")
-    return {n for n in os.listdir(d) if not n.startswith("auto_")} if os.path.isdir(d) else set()
+    out = set()
+    # (markers are keyed by the whole table-relative path of the file they protect: metadata/inflight/data/<name>.inflight)
+    for base, _dirs, files in os.walk(d):
+        for n in files:
+            if not n.startswith("auto_"):
+                out.add(os.path.relpath(os.path.join(base, n), d))
+    return out
 
 
 # what the caller of append_files claims about a file's content (DataFile.lower_bounds / upper_bounds)
